@@ -988,11 +988,17 @@ def _emit_block(
         lcd_decls[node.name] = node
         info = lcd_state.get(node.name)
         if info is not None:
+            # A re-bound name continues with the display this declaration defined.
+            for bound in info.get("bindings", ()):
+                if bound.get("decl") is node:
+                    lcd_state[node.name] = info = bound
+                    break
             return info
         object_name = f"__redu_lcd_{node.name}"
         cols_var = f"__redu_lcd_cols_{node.name}"
         rows_var = f"__redu_lcd_rows_{node.name}"
         info = {
+            "prefix": "__redu_lcd",
             "object": object_name,
             "cols_var": cols_var,
             "rows_var": rows_var,
@@ -1019,7 +1025,7 @@ def _emit_block(
             info["brightness_var"] = f"__redu_lcd_brightness_{node.name}"
             info["backlight_state_var"] = f"__redu_lcd_backlight_state_{node.name}"
         lcd_state[node.name] = info
-        lcd_animations.setdefault(node.name, [])
+        lcd_animations.setdefault(object_name, [])
         return info
 
     def _ensure_lcd(name: str) -> Optional[Dict[str, str]]:
@@ -1511,7 +1517,7 @@ def _emit_block(
                 continue
             counter = info.get("glyph_counter", 0) + 1
             info["glyph_counter"] = counter
-            array_name = f"__redu_lcd_glyph_{node.name}_{counter}"
+            array_name = f"{info['prefix']}_glyph_{node.name}_{counter}"
             bitmap_values = ", ".join(str(value & 0x1F) for value in node.bitmap)
             lines.append(f"{indent}uint8_t {array_name}[8] = {{{bitmap_values}}};")
             lines.append(
@@ -1558,7 +1564,7 @@ def _emit_block(
             counter = lcd_animation_counter.get(node.name, 0)
             var_name = f"__redu_lcd_anim_{node.name}_{counter}"
             lcd_animation_counter[node.name] = counter + 1
-            anim_list = lcd_animations.setdefault(node.name, [])
+            anim_list = lcd_animations.setdefault(info["object"], [])
             anim_list.append((var_name, tick_kind))
             speed_expr = _emit_expr(node.speed_ms)
             row_expr = _emit_expr(node.row)
@@ -1571,7 +1577,7 @@ def _emit_block(
             info = _ensure_lcd(node.name)
             if info is None:
                 continue
-            for anim_var, anim_kind in lcd_animations.get(node.name, []):
+            for anim_var, anim_kind in lcd_animations.get(info["object"], []):
                 tick_func = _LCD_ANIMATION_TICK_FUNCS.get(anim_kind)
                 if tick_func is None:
                     continue
@@ -2572,15 +2578,20 @@ def emit(ast: Program) -> str:
 
     def _ensure_lcd_globals(node: LCDDecl) -> Dict[str, str]:
         nonlocal lcd_parallel_used, lcd_i2c_used
-        info = lcd_state.get(node.name)
-        if info is not None:
-            return info
-        object_name = f"__redu_lcd_{node.name}"
-        cols_var = f"__redu_lcd_cols_{node.name}"
-        rows_var = f"__redu_lcd_rows_{node.name}"
+        # Every declaration defines its own display object; when a name is bound
+        # again the earlier displays stay and later commands use the latest one.
+        previous = lcd_state.get(node.name)
+        bindings = previous["bindings"] if previous is not None else []
+        prefix = f"__redu_lcd{len(bindings) + 1}" if bindings else "__redu_lcd"
+        object_name = f"{prefix}_{node.name}"
+        cols_var = f"{prefix}_cols_{node.name}"
+        rows_var = f"{prefix}_rows_{node.name}"
         cols_expr = _emit_expr(node.cols)
         rows_expr = _emit_expr(node.rows)
         info = {
+            "decl": node,
+            "bindings": bindings,
+            "prefix": prefix,
             "object": object_name,
             "cols_var": cols_var,
             "rows_var": rows_var,
@@ -2634,8 +2645,8 @@ def emit(ast: Program) -> str:
         if node.backlight_pin is not None:
             backlight_expr = _emit_expr(node.backlight_pin)
             info["backlight_pin"] = backlight_expr
-            brightness_var = f"__redu_lcd_brightness_{node.name}"
-            state_var = f"__redu_lcd_backlight_state_{node.name}"
+            brightness_var = f"{prefix}_brightness_{node.name}"
+            state_var = f"{prefix}_backlight_state_{node.name}"
             info["brightness_var"] = brightness_var
             info["backlight_state_var"] = state_var
             bright_line = f"int {brightness_var} = 255;"
@@ -2644,9 +2655,10 @@ def emit(ast: Program) -> str:
                 globals_.append(bright_line)
             if state_line not in globals_:
                 globals_.append(state_line)
+        bindings.append(info)
         lcd_state[node.name] = info
         lcd_decls[node.name] = node
-        lcd_animations.setdefault(node.name, [])
+        lcd_animations.setdefault(object_name, [])
         return info
 
     for node in (setup_body or []):
@@ -2722,7 +2734,7 @@ def emit(ast: Program) -> str:
 
         if isinstance(node, LCDDecl):
             info = _ensure_lcd_globals(node)
-            if node.name not in lcd_init_emitted:
+            if info["object"] not in lcd_init_emitted:
                 if info.get("interface") == "i2c":
                     setup_lines.append(f"  {info['object']}.init();")
                     setup_lines.append(f"  {info['object']}.backlight();")
@@ -2740,12 +2752,12 @@ def emit(ast: Program) -> str:
                                 f"  analogWrite({info['backlight_pin']}, {brightness_var});"
                             )
                 setup_lines.append(f"  {info['object']}.clear();")
-                lcd_init_emitted.add(node.name)
+                lcd_init_emitted.add(info["object"])
             continue
 
         if isinstance(node, LCDDecl):
             info = _ensure_lcd_globals(node)
-            if node.name not in lcd_init_emitted:
+            if info["object"] not in lcd_init_emitted:
                 if info.get("interface") == "i2c":
                     setup_lines.append(f"  {info['object']}.init();")
                     setup_lines.append(f"  {info['object']}.backlight();")
@@ -2763,7 +2775,7 @@ def emit(ast: Program) -> str:
                                 f"  analogWrite({info['backlight_pin']}, {brightness_var});"
                             )
                 setup_lines.append(f"  {info['object']}.clear();")
-                lcd_init_emitted.add(node.name)
+                lcd_init_emitted.add(info["object"])
             continue
 
         if isinstance(node, LedDecl):
